@@ -95,7 +95,7 @@ def main():
             print(f"[{pid}/{n}] suite with patch: exit {rc} ({dt:.0f}s) {summ[-1:]}")
             if rc != 0:
                 # the wall-clock quic test flakes under load: re-run the failures alone
-                failed = sorted(set(re.findall(r"^\s+FAIL \[[^\]]*\] (\S+) (\S+)$", out, re.M)))
+                failed = sorted(set(re.findall(r"^\s+(?:FAIL|TIMEOUT|SIGABRT|SIGSEGV|LEAK-FAIL)\s+\[[^\]]*\]\s+(?:\(\S+\)\s+)?(\S+) (\S+)$", out, re.M)))
                 res["suite_patched"]["failed"] = failed
                 still = []
                 for binid, test in failed:
